@@ -104,6 +104,11 @@ static int validate_checksums(zckCtx *zck, zck_log_type bad_checksums) {
         if(rlen < idx->comp_length) {
             /* A chunk that isn't completely in the file can't be valid */
             idx->valid = -1;
+            /* A short read leaves the position inside this chunk; the next
+             * chunk still has to be read from its own offset */
+            if(idx->next &&
+               !seek_data(zck, zck->data_offset + idx->next->start, SEEK_SET))
+                return 0;
         } else {
             valid_chunk = validate_chunk(idx, bad_checksums);
             if(!valid_chunk)
